@@ -426,7 +426,67 @@ AUTO = [
     "tests/test_indirect_programs_framework.xlsx",
     "tests/test_no_initialization.xlsx",
     "tests/framework_blank_sheet.xlsx",
+    # the junction fixtures written out twice, for two population types (code names of the second type carry the suffix _k):
+    # residual junction links, flushes and splits must work in every population type
+    "twin:tests/framework_junction_remainder_test.xlsx",
+    "twin:tests/framework_junction_remainder_test_2.xlsx",
+    "twin:tests/framework_junction_test.xlsx",
 ]
+
+
+def twin_framework(path):
+    """A single-type fixture framework (sheets Databook Pages / Compartments / Parameters / Transitions, no functions) as a
+    framework with two population types; returns an atomica ProjectFramework."""
+    import io
+    import atomica as at
+    import openpyxl
+    import sciris as sc
+
+    types = [("adults", "Adults", ""), ("kids", "Kids", "_k")]
+
+    def table(ws):
+        rows = [list(r) for r in ws.iter_rows(values_only=True)]
+        ncol = next((i for i, v in enumerate(rows[0]) if v is None), len(rows[0]))
+        out = []
+        for r in rows:
+            if all(v is None for v in r[:ncol]):
+                break
+            out.append(r[:ncol])
+        return out
+
+    src = openpyxl.load_workbook(path, data_only=True)
+    wb = openpyxl.Workbook()
+    wb.remove(wb.active)
+    ws = wb.create_sheet("Databook Pages")
+    for r in table(src["Databook Pages"]):
+        ws.append(r)
+    ws = wb.create_sheet("Population types")
+    ws.append(["Code name", "Description"])
+    for code, label, _ in types:
+        ws.append([code, label])
+    for sheet in ["Compartments", "Parameters"]:
+        tab = table(src[sheet])
+        ws = wb.create_sheet(sheet)
+        ws.append(tab[0] + ["Population type"])
+        for code, label, sfx in types:
+            for r in tab[1:]:
+                ws.append([r[0] + sfx, "%s (%s)" % (r[1], label)] + r[2:] + [code])
+    rows_ = [list(r) for r in src["Transitions"].iter_rows(values_only=True)]
+    ncol_ = 1 + max(i for i, v in enumerate(rows_[0]) if v is not None)  # (the top-left cell of the matrix may be blank)
+    tab = []
+    for r in rows_:
+        if all(v is None for v in r[:ncol_]) and tab:
+            break
+        tab.append(r[:ncol_])
+    ws = wb.create_sheet("Transitions")
+    for code, label, sfx in types:
+        ws.append([code] + [c + sfx for c in tab[0][1:]])
+        for r in tab[1:]:
+            ws.append([r[0] + sfx] + [v if v is None or str(v).strip() == ">" else ", ".join(x.strip() + sfx for x in str(v).split(",")) for v in r[1:]])
+        ws.append([None])
+    bio = io.BytesIO()
+    wb.save(bio)
+    return at.ProjectFramework(sc.Spreadsheet(io.BytesIO(bio.getvalue())))
 
 
 def auto_project(fw_path, rng, pops_per_type=None):
@@ -436,7 +496,7 @@ def auto_project(fw_path, rng, pops_per_type=None):
     import atomica as at
     import pandas as pd
 
-    fw = at.ProjectFramework(os.path.join(repo_root(), fw_path))
+    fw = twin_framework(os.path.join(repo_root(), fw_path[len("twin:"):])) if fw_path.startswith("twin:") else at.ProjectFramework(os.path.join(repo_root(), fw_path))
     pops = {}
     for ti, ptype in enumerate(fw.pop_types.keys()):
         for k in range(int(pops_per_type or rng.integers(1, 3))):
